@@ -1195,6 +1195,8 @@ def run(ctx):
                 fails.append(f)
         if fails:
             res['failing'] = ' '.join('%s[%s]' % (f, PROOF_UNIT.get(f.split(':')[0], '?')) for f in fails)
+    if not res['ok'] and S.tie_broken and res['failing'] in (None, 'unknown'):
+        res['failing'] = S.tie_broken[:200]          # a refused unit leaves no Gen file: name the refusal, not 'unknown'
     ctx.log('proof stage ok=%s failing=%s' % (res['ok'], res['failing']))
     ctx.cov['trusted_base'] = [
         'Coq 8.16.1 kernel + vm_compute (case evaluation)',
